@@ -27,6 +27,9 @@ import (
 //	env      the variable store of *object.Env (variables may change by definition)
 //	receiver the write goes through the receiver of a method: the method is a
 //	         mutator and every call site of it is listed as a write site itself
+//	parameter the write goes through parameter i of an unexported declared function that is only
+//	         ever called by name (never used as a value; at least one call site exists): every call site of it is
+//	         listed as a write site itself, with the i-th argument as destination
 //	shared   anything else (field of an existing object, parameter, global, unknown)
 //
 // request: {"repo": "/repo", "dirs": ["props","evaluator","object","di"],
@@ -74,6 +77,13 @@ type dwCtx struct {
 	wrappers []*regexp.Regexp
 	startup  map[string]bool
 	mutators map[string]bool
+	pmut     map[string]map[int]bool // function name -> parameter positions it writes through
+	escapes  map[string]bool         // names of declared functions that are used other than by calling them
+	called   map[string]int          // number of call sites by name
+	resFrom  map[string]map[int]int  // function name -> result position -> parameter it passes through (itself or appended to)
+	paramIdx map[*ast.Object]int     // parameter of a declared function -> its position
+	paramVar map[*ast.Object]bool    // ... and whether it is the variadic one
+	paramFn  map[*ast.Object]string  // ... and the bare name of that function
 	// per file
 	assigns map[*ast.Object][]dwInit // every value ever given to a local
 	params  map[*ast.Object]string   // "param" | "receiver" | "result"
@@ -86,10 +96,13 @@ type dwCtx struct {
 type dwInit struct {
 	expr ast.Expr // nil for `var x T` (zero value)
 	via  string   // "" | "range" | "typeswitch" | "multi"
+	pos  int      // multi: which result of the call
 }
 
 func dumpWrites(q dwReq) map[string]interface{} {
-	c := &dwCtx{fset: token.NewFileSet(), startup: map[string]bool{}, mutators: map[string]bool{}}
+	c := &dwCtx{fset: token.NewFileSet(), startup: map[string]bool{}, mutators: map[string]bool{},
+		pmut: map[string]map[int]bool{}, escapes: map[string]bool{}, called: map[string]int{}, resFrom: map[string]map[int]int{}, paramIdx: map[*ast.Object]int{},
+		paramVar: map[*ast.Object]bool{}, paramFn: map[*ast.Object]string{}}
 	for _, r := range q.Constructors {
 		c.ctors = append(c.ctors, regexp.MustCompile(r))
 	}
@@ -123,9 +136,11 @@ func dumpWrites(q dwReq) map[string]interface{} {
 		}
 		parsed[p] = f
 	}
+	c.scanFuncs(parsed)
 	// pass 1: methods that write through their receiver are mutators (AddPairs is
-	// given; others are discovered), so that their call sites become write sites.
-	for round := 0; round < 3; round++ {
+	// given; others are discovered), so that their call sites become write sites; the
+	// same for declared functions that write through a parameter.
+	for round := 0; round < 6; round++ {
 		c.sites = nil
 		for _, p := range files {
 			rel, _ := filepath.Rel(q.Repo, p)
@@ -134,6 +149,19 @@ func dumpWrites(q dwReq) map[string]interface{} {
 		}
 		grew := false
 		for _, s := range c.sites {
+			if s.Class == "parameter" {
+				var fn string
+				var idx int
+				if n, _ := fmt.Sscanf(s.Why, "through parameter %d of function %s", &idx, &fn); n == 2 {
+					if c.pmut[fn] == nil {
+						c.pmut[fn] = map[int]bool{}
+					}
+					if !c.pmut[fn][idx] {
+						c.pmut[fn][idx] = true
+						grew = true
+					}
+				}
+			}
 			if s.Class == "receiver" {
 				m := s.Func[strings.LastIndex(s.Func, ".")+1:]
 				if !c.mutators[m] {
@@ -151,7 +179,80 @@ func dumpWrites(q dwReq) map[string]interface{} {
 		muts = append(muts, m)
 	}
 	sort.Strings(muts)
-	return map[string]interface{}{"sites": c.sites, "files": len(files), "mutators": muts}
+	pm := map[string][]int{}
+	for fn, m := range c.pmut {
+		for i := range m {
+			pm[fn] = append(pm[fn], i)
+		}
+		sort.Ints(pm[fn])
+	}
+	return map[string]interface{}{"sites": c.sites, "files": len(files), "mutators": muts, "param_mutators": pm}
+}
+
+// scanFuncs: positions of the parameters of every declared function (not method, not
+// function literal), and the names of declared functions that occur anywhere other
+// than as the callee of a call (used as a value: their call sites cannot be listed).
+func (c *dwCtx) scanFuncs(parsed map[string]*ast.File) {
+	declared := map[string]int{}
+	for _, f := range parsed {
+		for _, d := range f.Decls {
+			fd, ok := d.(*ast.FuncDecl)
+			if !ok || fd.Recv != nil {
+				continue
+			}
+			declared[fd.Name.Name]++
+			i := 0
+			for _, fl := range fd.Type.Params.List {
+				_, variadic := fl.Type.(*ast.Ellipsis)
+				for _, id := range fl.Names {
+					if id.Obj != nil {
+						c.paramIdx[id.Obj] = i
+						c.paramVar[id.Obj] = variadic
+						c.paramFn[id.Obj] = fd.Name.Name
+					}
+					i++
+				}
+				if len(fl.Names) == 0 {
+					i++
+				}
+			}
+		}
+	}
+	for name, n := range declared {
+		if n > 1 {
+			c.escapes[name] = true // the same name in two packages: call sites are ambiguous
+		}
+	}
+	for _, f := range parsed {
+		for _, d := range f.Decls {
+			if fd, ok := d.(*ast.FuncDecl); ok && fd.Recv == nil && declared[fd.Name.Name] == 1 {
+				c.resultSummary(fd)
+			}
+		}
+	}
+	for _, f := range parsed {
+		callee := map[*ast.Ident]bool{}
+		ast.Inspect(f, func(n ast.Node) bool {
+			switch n := n.(type) {
+			case *ast.CallExpr:
+				switch fun := n.Fun.(type) {
+				case *ast.Ident:
+					callee[fun] = true
+					c.called[fun.Name]++
+				case *ast.SelectorExpr:
+					callee[fun.Sel] = true
+					c.called[fun.Sel.Name]++
+				}
+			case *ast.FuncDecl:
+				callee[n.Name] = true
+			case *ast.Ident:
+				if declared[n.Name] > 0 && !callee[n] && (n.Obj == nil || n.Obj.Kind == ast.Fun) {
+					c.escapes[n.Name] = true
+				}
+			}
+			return true
+		})
+	}
 }
 
 func (c *dwCtx) text(n ast.Node) string {
@@ -199,9 +300,9 @@ func (c *dwCtx) file(f *ast.File) {
 					}
 				}
 			} else if len(n.Rhs) == 1 {
-				for _, l := range n.Lhs {
+				for k, l := range n.Lhs {
 					if id, ok := l.(*ast.Ident); ok && id.Obj != nil {
-						c.assigns[id.Obj] = append(c.assigns[id.Obj], dwInit{expr: n.Rhs[0], via: "multi"})
+						c.assigns[id.Obj] = append(c.assigns[id.Obj], dwInit{expr: n.Rhs[0], via: "multi", pos: k})
 					}
 				}
 			}
@@ -320,6 +421,8 @@ func (c *dwCtx) walk(body ast.Node, fn, bare, recvT string, recvObj *ast.Object)
 				} else {
 					class, why = "receiver", "through the receiver of method "+fn+" (its call sites are listed)"
 				}
+			} else if ro := rootObj(dst); ro != nil && recvObj == nil && c.paramFn[ro] == bare && fn == bare && !ast.IsExported(bare) && !c.escapes[bare] && c.called[bare] > 0 && !c.paramVar[ro] && directRoot(dst) {
+				class, why = "parameter", fmt.Sprintf("through parameter %d of function %s (its call sites are listed)", c.paramIdx[ro], bare)
 			}
 		}
 		pos := c.fset.Position(at.Pos())
@@ -337,6 +440,13 @@ func (c *dwCtx) walk(body ast.Node, fn, bare, recvT string, recvObj *ast.Object)
 		case *ast.CallExpr:
 			switch fun := n.Fun.(type) {
 			case *ast.Ident:
+				if idxs, ok := c.pmut[fun.Name]; ok && (fun.Obj == nil || fun.Obj.Kind == ast.Fun) {
+					for i := range n.Args {
+						if idxs[i] {
+							add(n, "call:"+fun.Name, n.Args[i])
+						}
+					}
+				}
 				if fun.Obj == nil && len(n.Args) >= 1 {
 					switch fun.Name {
 					case "append":
@@ -359,6 +469,13 @@ func (c *dwCtx) walk(body ast.Node, fn, bare, recvT string, recvObj *ast.Object)
 					}
 				} else if c.mutators[fun.Sel.Name] {
 					add(n, "call:"+fun.Sel.Name, fun.X)
+				}
+				if idxs, ok := c.pmut[fun.Sel.Name]; ok {
+					for i := range n.Args {
+						if idxs[i] {
+							add(n, "call:"+fun.Sel.Name, n.Args[i])
+						}
+					}
 				}
 			}
 		case *ast.AssignStmt:
@@ -388,6 +505,25 @@ func (c *dwCtx) lhs(l ast.Expr, at ast.Node, add func(ast.Node, string, ast.Expr
 		add(at, "field", l.X)
 	case *ast.StarExpr:
 		add(at, "deref", l.X)
+	}
+}
+
+// directRoot: the destination is the parameter itself, *p, (*p) or p[...] sliced — no field
+// selection and no element (x.f and x[i].f reach objects the caller did not pass as such).
+func directRoot(e ast.Expr) bool {
+	for {
+		switch x := e.(type) {
+		case *ast.ParenExpr:
+			e = x.X
+		case *ast.StarExpr:
+			e = x.X
+		case *ast.SliceExpr:
+			e = x.X
+		case *ast.Ident:
+			return true
+		default:
+			return false
+		}
 	}
 }
 
@@ -510,6 +646,20 @@ func (c *dwCtx) classify(e ast.Expr, depth int) (string, string, string) {
 			if in.expr != nil && selfAppend(in.expr, x.Obj) {
 				continue // x = append(x, …): as fresh as the other values of x
 			}
+			if arg := c.passThrough(in); arg != nil {
+				// x, … = f(…, arg, …) where f returns that parameter itself or append(that parameter, …)
+				if id, ok := arg.(*ast.Ident); ok && id.Obj == x.Obj {
+					continue // as fresh as the other values of x
+				}
+				cl, root, why := c.classify(arg, depth+1)
+				if cl != "fresh" {
+					return "shared", x.Name, "local set from " + root + " (" + why + ")"
+				}
+				if reason == "" {
+					reason = "local := pass-through of " + why
+				}
+				continue
+			}
 			if in.via == "range" {
 				cl, root, why := c.classify(in.expr, depth+1)
 				if cl != "fresh" {
@@ -630,6 +780,133 @@ func (c *dwCtx) throughField(x ast.Expr, f, root, why string, depth int) (string
 		}
 	}
 	return "fresh", root, "field " + f + " of " + why
+}
+
+// passThrough: the value is result k of a call of a declared function whose every return gives, at
+// position k, one of its parameters or append(that parameter, …): returns the argument passed for it.
+func (c *dwCtx) passThrough(in dwInit) ast.Expr {
+	call, ok := in.expr.(*ast.CallExpr)
+	if !ok || in.via == "range" || in.via == "typeswitch" {
+		return nil
+	}
+	f, ok := call.Fun.(*ast.Ident)
+	if !ok || (f.Obj != nil && f.Obj.Kind != ast.Fun) {
+		return nil
+	}
+	m, ok := c.resFrom[f.Name]
+	if !ok || call.Ellipsis.IsValid() {
+		return nil
+	}
+	j, ok := m[in.pos]
+	if !ok || j >= len(call.Args) {
+		return nil
+	}
+	return call.Args[j]
+}
+
+// resultSummary fills resFrom for one declared function.
+func (c *dwCtx) resultSummary(fd *ast.FuncDecl) {
+	if fd.Body == nil || fd.Type.Results == nil {
+		return
+	}
+	for _, r := range fd.Type.Results.List {
+		if len(r.Names) > 0 {
+			return // named results: not summarised
+		}
+	}
+	idx := map[*ast.Object]int{}
+	i := 0
+	for _, fl := range fd.Type.Params.List {
+		if _, variadic := fl.Type.(*ast.Ellipsis); variadic {
+			return
+		}
+		for _, id := range fl.Names {
+			if id.Obj != nil {
+				idx[id.Obj] = i
+			}
+			i++
+		}
+		if len(fl.Names) == 0 {
+			i++
+		}
+	}
+	// a parameter that is assigned to inside the body is no longer "the argument"
+	assigned := map[*ast.Object]bool{}
+	ast.Inspect(fd.Body, func(n ast.Node) bool {
+		if as, ok := n.(*ast.AssignStmt); ok {
+			for _, l := range as.Lhs {
+				if id, ok := l.(*ast.Ident); ok && id.Obj != nil {
+					if _, isParam := idx[id.Obj]; isParam {
+						assigned[id.Obj] = true
+					}
+				}
+			}
+		}
+		return true
+	})
+	from := map[int]int{}
+	bad := map[int]bool{}
+	n := len(fd.Type.Results.List)
+	var visit func(n ast.Node) bool
+	visit = func(nd ast.Node) bool {
+		switch x := nd.(type) {
+		case *ast.FuncLit:
+			return false
+		case *ast.ReturnStmt:
+			if len(x.Results) != n {
+				for k := 0; k < n; k++ {
+					bad[k] = true
+				}
+				return true
+			}
+			for k, e := range x.Results {
+				o := passedParam(e)
+				j, isParam := idx[o]
+				if o == nil || !isParam || assigned[o] {
+					bad[k] = true
+					continue
+				}
+				if prev, ok := from[k]; ok && prev != j {
+					bad[k] = true
+				}
+				from[k] = j
+			}
+		}
+		return true
+	}
+	ast.Inspect(fd.Body, visit)
+	out := map[int]int{}
+	for k, j := range from {
+		if !bad[k] {
+			out[k] = j
+		}
+	}
+	if len(out) > 0 {
+		c.resFrom[fd.Name.Name] = out
+	}
+}
+
+// passedParam: e is `p`, `(p)`, `p[a:b]` or `append(<one of these>, …)`: returns p's object.
+func passedParam(e ast.Expr) *ast.Object {
+	for {
+		switch x := e.(type) {
+		case *ast.ParenExpr:
+			e = x.X
+			continue
+		case *ast.SliceExpr:
+			e = x.X
+			continue
+		case *ast.CallExpr:
+			if id, ok := x.Fun.(*ast.Ident); ok && id.Name == "append" && id.Obj == nil && len(x.Args) > 0 {
+				e = x.Args[0]
+				continue
+			}
+			return nil
+		case *ast.Ident:
+			return x.Obj
+		}
+		return nil
+	}
 }
 
 func selfAppend(e ast.Expr, o *ast.Object) bool {
